@@ -409,3 +409,307 @@ def describe(model):
             "constraints": [f"{show(c['lhs'])} {c['sense']} {rhs_s(c['rhs'])}" + (" (reflected)" if c.get("written") == "reflected" else "")
                             for c in model["constraints"]],
             "bounds": dict(zip(model["names"], model["data"]["bounds"]))}
+
+
+# ------------------------------------------------------------------------------------------
+# G-cvx: strictly convex problems with a manufactured optimum
+# ------------------------------------------------------------------------------------------
+@st.composite
+def cvx_models(draw, allow_infeasible=False, allow_nonquadratic=True, max_n=5, constraints=True):
+    """min f(x) = 1/2 x'Qx + extras(x) + g.x + c0  s.t. linear rows, optional ball, bounds; the linear term g
+    is *solved for* so that the KKT conditions hold at the drawn x*.  Strict convexity makes x* the unique
+    global optimum and f* = f(x*) is known in closed form."""
+    ns = draw(st.integers(0, 3))
+    snames = draw(st.lists(st.sampled_from(gen.SCALAR_NAMES), min_size=ns, max_size=ns, unique=True))
+    nv = draw(st.integers(0 if ns else 1, 1))
+    env = {"scalars": [{"name": nm} for nm in snames], "vectors": [], "matrices": [], "params": [], "views": {}}
+    if nv:
+        env["vectors"].append({"name": draw(st.sampled_from(gen.VECTOR_NAMES)), "n": draw(st.integers(1, max(1, max_n - ns)))})
+    names = sorted(all_var_names(env), key=natural_key)
+    n = len(names)
+    xs = [draw(st.integers(-8, 8)) / 4.0 for _ in range(n)]
+    # Q = L L' + D  (positive definite, modest condition number)
+    L = [[(draw(st.sampled_from([0, 0, 1, -1, 0.5])) if j < i else 0.0) for j in range(n)] for i in range(n)]
+    Dg = [draw(st.sampled_from([1, 2, 3])) for _ in range(n)]
+    Lm = np.array(L, dtype=float)
+    Q = Lm @ Lm.T + np.diag(Dg)
+    extras = []
+    if allow_nonquadratic:
+        for _ in range(draw(st.integers(0, 2))):
+            kind = draw(st.sampled_from(["exp", "quartic"]))
+            i = draw(st.integers(0, n - 1))
+            if kind == "exp":
+                extras.append({"kind": "exp", "i": i, "w": draw(st.sampled_from([0.5, 1, 2])), "a": draw(st.sampled_from([1, -1, 0.5]))})
+            else:
+                extras.append({"kind": "quartic", "i": i, "d": draw(st.integers(-4, 4)) / 2.0})
+    x = np.array(xs)
+    grad = Q @ x
+    for e in extras:
+        if e["kind"] == "exp":
+            grad[e["i"]] += e["w"] * e["a"] * np.exp(e["a"] * x[e["i"]])
+        else:
+            grad[e["i"]] += 4 * (x[e["i"]] - e["d"]) ** 3
+    rows = []  # dicts: coefs(list), sense, b, active, lam
+    if constraints:
+        for _ in range(draw(st.integers(0, 3))):
+            k = draw(st.integers(1, min(n, 3)))
+            idx = draw(st.lists(st.integers(0, n - 1), min_size=k, max_size=k, unique=True))
+            a = np.zeros(n)
+            for i in idx:
+                a[i] = draw(st.sampled_from([1, -1, 2, 0.5]))
+            val = float(a @ x)
+            typ = draw(st.sampled_from(["active", "inactive", "inactive", "eq"]))
+            if typ == "eq" and sum(1 for r in rows if r["sense"] == "==") >= max(0, n - 1):
+                typ = "inactive"
+            if typ == "eq":
+                rows.append({"coefs": a.tolist(), "sense": "==", "b": val, "active": True, "lam": draw(st.sampled_from([0, 1, -1, 0.5]))})
+                grad = grad + rows[-1]["lam"] * a
+            else:
+                sns = draw(st.sampled_from(["<=", ">="]))
+                if typ == "active":
+                    lam = draw(st.sampled_from([0.5, 1, 2]))
+                    rows.append({"coefs": a.tolist(), "sense": sns, "b": val, "active": True, "lam": lam})
+                    grad = grad + (lam * a if sns == "<=" else -lam * a)
+                else:
+                    margin = draw(st.sampled_from([0.5, 1, 3]))
+                    rows.append({"coefs": a.tolist(), "sense": sns, "b": val + margin if sns == "<=" else val - margin,
+                                 "active": False, "lam": 0.0})
+    # equality rows must be linearly independent for the solvers: drop dependents
+    eqs = [r for r in rows if r["sense"] == "=="]
+    if len(eqs) > 1:
+        Em = np.array([r["coefs"] for r in eqs])
+        if np.linalg.matrix_rank(Em) < len(eqs):
+            keep_first = eqs[0]
+            for r in eqs[1:]:
+                rows.remove(r)
+                grad = grad - r["lam"] * np.array(r["coefs"])
+            eqs = [keep_first]
+    ball = None
+    if constraints and draw(st.integers(0, 4)) == 0:
+        cen = [draw(st.integers(-4, 4)) / 2.0 for _ in range(n)]
+        dist2 = float(np.sum((x - np.array(cen)) ** 2))
+        if draw(st.booleans()) and dist2 > 0.25:
+            lam = draw(st.sampled_from([0.5, 1]))
+            ball = {"center": cen, "r2": dist2, "active": True, "lam": lam}
+            grad = grad + lam * 2 * (x - np.array(cen))  # constraint: |x-c|^2 - r2 <= 0
+        else:
+            ball = {"center": cen, "r2": dist2 + draw(st.sampled_from([1, 4])), "active": False, "lam": 0.0}
+    # bounds are declared per declaration: a vector carries ONE (lb, ub) pair for all its elements
+    groups = [[names.index(sn)] for sn in snames]
+    if env["vectors"]:
+        v = env["vectors"][0]
+        groups.append([names.index(f"{v['name']}[{i}]") for i in range(v["n"])])
+    bounds = [[None, None] for _ in range(n)]
+    decl_bounds = []
+    for grp in groups:
+        typ = draw(st.sampled_from(["none", "none", "inside", "lb-active", "ub-active"])) if constraints else \
+            draw(st.sampled_from(["none", "inside"]))
+        lo, hi = min(xs[i] for i in grp), max(xs[i] for i in grp)
+        if typ == "none":
+            pair = [None, None]
+        elif typ == "inside":
+            pair = [lo - draw(st.sampled_from([0.5, 2])), hi + draw(st.sampled_from([0.5, 3]))]
+        elif typ == "lb-active":
+            pair = [lo, hi + draw(st.sampled_from([1, 4]))]
+            for i in grp:
+                if xs[i] == lo:
+                    grad[i] -= draw(st.sampled_from([0.5, 1, 2]))
+        else:
+            pair = [lo - draw(st.sampled_from([1, 4])), hi]
+            for i in grp:
+                if xs[i] == hi:
+                    grad[i] += draw(st.sampled_from([0.5, 1, 2]))
+        decl_bounds.append(pair)
+        for i in grp:
+            bounds[i] = list(pair)
+    for sdecl, pair in zip(env["scalars"], decl_bounds):
+        sdecl["lb"], sdecl["ub"] = pair
+    if env["vectors"]:
+        env["vectors"][0]["lb"], env["vectors"][0]["ub"] = decl_bounds[-1]
+    g = -grad
+    c0 = draw(st.sampled_from([0, 0, 3, -1.5]))
+    sense = draw(st.sampled_from(["minimize", "minimize", "maximize"]))
+    model = {"family": "cvx", "env": env, "names": names, "sense": sense, "flavour": "feasible",
+             "data": {"Q": Q.tolist(), "g": g.tolist(), "c0": float(c0), "extras": extras, "rows": rows, "ball": ball,
+                      "bounds": bounds, "xstar": xs}}
+    _cvx_render(draw, model)
+    if allow_infeasible and draw(st.integers(0, 3)) == 0:
+        _make_infeasible(draw, model)
+    return model
+
+
+def _cvx_render(draw, model):
+    env, names, d = model["env"], model["names"], model["data"]
+    n = len(names)
+    Q = np.array(d["Q"])
+    xr = [_var_recipe(nm, env) for nm in names]
+    terms, forms = [], []
+    only_vector = bool(env["vectors"]) and not env["scalars"]
+    qstyle = draw(st.sampled_from(["explicit", "quadform", "quadform"])) if only_vector else "explicit"
+    if qstyle == "quadform":
+        V = ["vvar", env["vectors"][0]["name"]]
+        terms.append(["quad", V, (Q / 2).tolist(), draw(st.sampled_from(["dot_matvec", "quadratic_form", "QuadraticForm", "dot_matmul_fn"]))])
+        forms.append("quadform")
+    else:
+        for i in range(n):
+            c = Q[i, i] / 2
+            sq = ["bin", "**", xr[i], ["const", "pyint", 2]] if draw(st.booleans()) else ["bin", "*", xr[i], xr[i]]
+            terms.append(["bin", "*", _cnum(draw, float(c), kinds=("pyfloat", "Constant", "npfloat64")), sq])
+            for j in range(i + 1, n):
+                if Q[i, j] != 0:
+                    pr = ["bin", "*", xr[i], xr[j]] if draw(st.booleans()) else ["bin", "*", xr[j], xr[i]]
+                    terms.append(["bin", "*", _cnum(draw, float(Q[i, j]), kinds=("pyfloat", "Constant")), pr])
+        forms.append("explicit-quadratic")
+    for e in d["extras"]:
+        if e["kind"] == "exp":
+            arg = xr[e["i"]] if e["a"] == 1 else ["bin", "*", ["const", "pyfloat", e["a"]], xr[e["i"]]]
+            terms.append(["bin", "*", ["const", "pyfloat", e["w"]], ["un", "exp", arg]])
+            forms.append("exp")
+        else:
+            terms.append(["bin", "**", ["bin", "-", xr[e["i"]], ["const", "pyfloat", e["d"]]], ["const", "pyint", 4]])
+            forms.append("quartic")
+    lin, f1 = render_affine(draw, dict(zip(names, d["g"])), d["c0"], env)
+    terms.append(lin)
+    order = list(draw(st.permutations(terms)))
+    f = order[0]
+    for t in order[1:]:
+        f = ["bin", "+", f, t]
+    if model["sense"] == "maximize":
+        f = ["un", "neg", f] if draw(st.booleans()) else ["bin", "*", ["const", "pyfloat", -1.0], f]
+    model["objective"] = f
+    cons = []
+    for r in d["rows"]:
+        coefs = {nm: a for nm, a in zip(names, r["coefs"]) if a != 0}
+        shift = draw(st.sampled_from([0, 0, 1, -2]))
+        L, f2 = render_affine(draw, coefs, shift, env)
+        rhs = r["b"] + shift
+        rhs = rhs if draw(st.booleans()) else ["const", "Constant", rhs]
+        cons.append({"kind": "scalar", "lhs": L, "sense": r["sense"], "rhs": rhs,
+                     "written": draw(st.sampled_from(["direct", "direct", "reflected"])) if r["sense"] != "==" else "direct",
+                     "rows": [[list(r["coefs"]), r["sense"], r["b"]]], "what": "linear"})
+        forms += f2
+    if d["ball"] is not None:
+        cen = d["ball"]["center"]
+        if only_vector and draw(st.booleans()):
+            V = ["vvar", env["vectors"][0]["name"]]
+            L = ["vsum", ["vpow", ["vbin", "-", V, ["arr", cen], "right"], 2]]
+        else:
+            L = None
+            for i in range(n):
+                t = ["bin", "**", ["bin", "-", xr[i], ["const", "pyfloat", cen[i]]], ["const", "pyint", 2]]
+                L = t if L is None else ["bin", "+", L, t]
+        cons.append({"kind": "scalar", "lhs": L, "sense": "<=", "rhs": d["ball"]["r2"], "written": "direct", "rows": [],
+                     "what": "ball"})
+        forms.append("ball")
+    model["constraints"] = cons
+    model["forms"] = sorted(set(forms + f1))
+
+
+def _make_infeasible(draw, model):
+    """add a contradiction: a row pair, or a row against a declared bound"""
+    d, names, env = model["data"], model["names"], model["env"]
+    n = len(names)
+    i = draw(st.integers(0, n - 1))
+    xr = _var_recipe(names[i], env)
+    x = d["xstar"][i]
+    lb, ub = d["bounds"][i]
+    how = draw(st.sampled_from(["pair", "bound"]))
+    coefs = [0.0] * n
+    coefs[i] = 1.0
+    if how == "bound" and ub is not None:
+        model["constraints"].append({"kind": "scalar", "lhs": xr, "sense": ">=", "rhs": ub + 1.0, "written": "direct",
+                                     "rows": [[coefs, ">=", ub + 1.0]], "what": "infeasible"})
+    elif how == "bound" and lb is not None:
+        model["constraints"].append({"kind": "scalar", "lhs": xr, "sense": "<=", "rhs": lb - 1.0, "written": "direct",
+                                     "rows": [[coefs, "<=", lb - 1.0]], "what": "infeasible"})
+    else:
+        model["constraints"].append({"kind": "scalar", "lhs": xr, "sense": ">=", "rhs": x + 2.0, "written": "direct",
+                                     "rows": [[coefs, ">=", x + 2.0]], "what": "infeasible"})
+        model["constraints"].append({"kind": "scalar", "lhs": xr, "sense": "<=", "rhs": x + 1.0, "written": "direct",
+                                     "rows": [[coefs, "<=", x + 1.0]], "what": "infeasible"})
+    model["flavour"] = "infeasible"
+
+
+class CvxOracle:
+    """hand-written NumPy closures of a cvx model (minimisation form), in `names` order"""
+
+    def __init__(self, model):
+        d = model["data"]
+        self.model = model
+        self.Q = np.array(d["Q"], dtype=float)
+        self.g = np.array(d["g"], dtype=float)
+        self.c0 = d["c0"]
+        self.extras = d["extras"]
+        self.xstar = np.array(d["xstar"], dtype=float)
+        self.n = len(model["names"])
+
+    def f(self, x):
+        x = np.asarray(x, dtype=float)
+        v = 0.5 * x @ self.Q @ x + self.g @ x + self.c0
+        for e in self.extras:
+            if e["kind"] == "exp":
+                v += e["w"] * np.exp(e["a"] * x[e["i"]])
+            else:
+                v += (x[e["i"]] - e["d"]) ** 4
+        return float(v)
+
+    def grad(self, x):
+        x = np.asarray(x, dtype=float)
+        gr = self.Q @ x + self.g
+        for e in self.extras:
+            if e["kind"] == "exp":
+                gr[e["i"]] += e["w"] * e["a"] * np.exp(e["a"] * x[e["i"]])
+            else:
+                gr[e["i"]] += 4 * (x[e["i"]] - e["d"]) ** 3
+        return gr
+
+    def hess(self, x):
+        x = np.asarray(x, dtype=float)
+        H = self.Q.copy()
+        for e in self.extras:
+            if e["kind"] == "exp":
+                H[e["i"], e["i"]] += e["w"] * e["a"] ** 2 * np.exp(e["a"] * x[e["i"]])
+            else:
+                H[e["i"], e["i"]] += 12 * (x[e["i"]] - e["d"]) ** 2
+        return H
+
+    @property
+    def fstar(self):
+        return self.f(self.xstar)
+
+    def constraint_fns(self):
+        """list of (type, fun, jac, description) with SciPy's convention fun(x) >= 0 for 'ineq'"""
+        out = []
+        for con in self.model["constraints"]:
+            if con["what"] == "ball":
+                cen = np.array(self.model["data"]["ball"]["center"])
+                r2 = self.model["data"]["ball"]["r2"]
+                out.append(("ineq", lambda x, c=cen, r=r2: float(r - np.sum((x - c) ** 2)),
+                            lambda x, c=cen: -2 * (x - c), "ball"))
+                continue
+            for coefs, sns, b in con["rows"]:
+                a = np.array(coefs, dtype=float)
+                if sns == "<=":
+                    out.append(("ineq", lambda x, a=a, b=b: float(b - a @ x), lambda x, a=a: -a, "<="))
+                elif sns == ">=":
+                    out.append(("ineq", lambda x, a=a, b=b: float(a @ x - b), lambda x, a=a: a.copy(), ">="))
+                else:
+                    out.append(("eq", lambda x, a=a, b=b: float(a @ x - b), lambda x, a=a: a.copy(), "=="))
+        return out
+
+    def violations(self, x, tol_scale=1.0):
+        """max constraint / bound violation of x"""
+        x = np.asarray(x, dtype=float)
+        worst = 0.0
+        for typ, fun, _, _ in self.constraint_fns():
+            v = fun(x)
+            worst = max(worst, -v if typ == "ineq" else abs(v))
+        for xi, (lb, ub) in zip(x, self.model["data"]["bounds"]):
+            if lb is not None:
+                worst = max(worst, lb - xi)
+            if ub is not None:
+                worst = max(worst, xi - ub)
+        return worst
+
+    def scipy_bounds(self):
+        return [(-np.inf if lb is None else lb, np.inf if ub is None else ub) for lb, ub in self.model["data"]["bounds"]]
